@@ -494,10 +494,18 @@ func propC12(t *rapid.T, kind string) {
 				}
 				mm[k] = clonePI(v)
 			}
-			set(pm.positions, ch, pi)
-			set(pm.op, ch, op)
-			if tp != nil {
-				set(pm.target, tp.DataPair.Key, tp)
+			// once the drop state of the collection has been set its record is frozen: entries are neither overwritten nor added
+			// (fix: "positions of a collection whose drop has been replicated are frozen")
+			frozen := false
+			for _, v := range pm.positions {
+				frozen = frozen || v.Dropped
+			}
+			if !frozen {
+				set(pm.positions, ch, pi)
+				set(pm.op, ch, op)
+				if tp != nil {
+					set(pm.target, tp.DataPair.Key, tp)
+				}
 			}
 		case "dropState":
 			err := store.UpdateDropStateTaskCollectionPosition(f.GetTaskCollectionPositionMetaStore(ctx), task, coll)
